@@ -161,6 +161,18 @@ def correspond(ctx):
                 s_tr.add(f"b64 enct {name} {hx(src)} {o}", lambda src=src, offs=offs: hx(e.encode_transposed_bytes(src, offs)))
                 encd = e.encode_transposed_bytes(src, offs)
                 s_tr.add(f"b64 dect {name} {hx(encd)} {o}", lambda encd=encd, offs=offs: hx(e.decode_transposed_bytes(encd, offs)))
+        # … and small permutations of every length from 0 (offset lists of length 0, 1, 2 take the degenerate paths of any gather)
+        for n in (0, 1, 1, 2, 2, 3, 4, 5, 7):
+            offs = list(range(n))
+            rng.shuffle(offs)
+            src = rng.randbytes(n)
+            o = ",".join(map(str, offs)) or "-"
+            s_tr.add(f"b64 enct {name} {hx(src)} {o}", lambda src=src, offs=offs: hx(e.encode_transposed_bytes(src, offs)))
+            try:
+                encd = e.encode_transposed_bytes(src, offs)
+            except Exception:  # noqa: BLE001
+                continue
+            s_tr.add(f"b64 dect {name} {hx(encd)} {o}", lambda encd=encd, offs=offs: hx(e.decode_transposed_bytes(encd, offs)))
     for name, e in libpass_engines_like().items():
         for n in list(range(0, 40)) * 3:
             bs = rng.randbytes(n)
@@ -333,10 +345,19 @@ def search(ctx, broken, seeds):
                 return {"input": {"op": "decode-len", "engine": name, "text": s.hex()}, "observed": "accepted", "expected": "ValueError"}
             except ValueError:
                 pass
-        for tn, offs in tables().items():
+        small = {f"perm{n}": ctx.rng.sample(range(n), n) for n in (0, 1, 2, 3, 5)}
+        for tn, offs in list(tables().items()) + list(small.items()):
             if sorted(offs) != list(range(len(offs))):
                 continue
             src = ctx.rng.randbytes(len(offs))
+            if len(offs) <= 5:
+                # the transposed encoding is the plain encoding of the gathered bytes
+                try:
+                    te, pe = e.encode_transposed_bytes(src, offs), e.encode_bytes(bytes(src[o] for o in offs))
+                except Exception as ex:  # noqa: BLE001
+                    return {"input": {"op": "transposed", "engine": name, "table": tn, "offsets": offs, "bytes": src.hex()}, "observed": type(ex).__name__ + ": " + str(ex)[:80], "expected": "the encoding of the gathered bytes"}
+                if te != pe:
+                    return {"input": {"op": "transposed", "engine": name, "table": tn, "offsets": offs, "bytes": src.hex()}, "observed": te.decode("latin-1"), "expected": pe.decode("latin-1")}
             for src in (src, bytes(len(offs)), bytes([0]) + src[1:], src[:-1] + bytes([0])):
                 try:
                     back = e.decode_transposed_bytes(e.encode_transposed_bytes(src, offs), offs)
